@@ -632,8 +632,14 @@ impl BitVector for Bvd {
 
 impl Hash for Bvd {
     fn hash<H: Hasher>(&self, state: &mut H) {
-        self.length.hash(state);
-        for i in 0..Self::capacity_from_bit_len(self.length) {
+        // Equality ignores the length (the shorter operand is zero extended), so the hash may only
+        // depend on the value: hash the words up to the most significant non-zero one.
+        let mut len = Self::capacity_from_bit_len(self.length);
+        while len > 0 && self.data[len - 1] == 0 {
+            len -= 1;
+        }
+        len.hash(state);
+        for i in 0..len {
             self.data[i].hash(state);
         }
     }
